@@ -16,6 +16,7 @@ def dispatch (line : String) : String :=
   | "cache" :: rest => cacheEngine rest
   | "kvfs" :: rest => kvfsEngine rest
   | "asm15" :: rest => asm15Engine rest
+  | "osfs" :: rest => osfsEngine rest
   | _ => "bad-op"
 
 partial def loop (hin hout : IO.FS.Stream) : IO Unit := do
